@@ -646,7 +646,7 @@ def _eval_api(api, e, A, case, label):
         keep = idx.copy()
         got = np.asarray(L(e.gather_nd, idx))
         want = A[tuple(keep.T)]
-        check(got.shape == want.shape and np.array_equal(got, want), pre + "|value|" + vn, lambda: f"indices {_short(keep.tolist())}: {_short(got.tolist())} want {_short(want.tolist())}")
+        check(got.shape == want.shape and np.array_equal(got, want), pre + "|value", lambda: f"[{vn}] indices {_short(keep.tolist())}: {_short(got.tolist())} want {_short(want.tolist())}")
         check(np.array_equal(idx, keep), pre + "|mutates_argument", "gather_nd changed the index array passed in")
     elif api == "mask":
         var = aux % 4
